@@ -1570,6 +1570,7 @@ class LogicalFile:
             name_space_version=name_space_version,
             parent=parent,
         )
+        o._file_id_from_header = o.file_id.value  # (see _check_defining_origin_params)
         self._eflr_sets.try_add_set(parent)  # only now: a rejected call must leave no trace
 
         if (
@@ -2183,14 +2184,18 @@ class LogicalFile:
 
         fh_id = self.file_header.header_id
 
-        if do.file_id.value is None:
-            do.file_id.value = fh_id
-        else:
-            if do.file_id.value != fh_id:
-                raise ValueError(
-                    "'file_id' of the Defining Origin should be the same as the ID (header_id) "
-                    f"of the file header; got {repr(do.file_id.value)} and {repr(fh_id)}"
-                )
+        # a FILE-ID not given by the user is taken from the header - again at every write, the header ID may have been changed
+        for o in self.origins:
+            from_header = getattr(o, '_file_id_from_header', None)
+            if (from_header is not None and o.file_id.value == from_header) or (o is do and o.file_id.value is None):
+                o.file_id.value = fh_id
+                o._file_id_from_header = o.file_id.value
+
+        if do.file_id.value != fh_id:
+            raise ValueError(
+                "'file_id' of the Defining Origin should be the same as the ID (header_id) "
+                f"of the file header; got {repr(do.file_id.value)} and {repr(fh_id)}"
+            )
 
     def _check_completeness(self) -> None:
         """Check that the collection contains all required objects in the required (min/max) numbers.
